@@ -46,6 +46,11 @@ func (c concCase) fnOf(w int) int {
 	return w
 }
 
+// phpString renders s as a single-quoted script string literal.
+func phpString(s string) string {
+	return "'" + strings.NewReplacer("\\", "\\\\", "'", "\\'").Replace(s) + "'"
+}
+
 func concLiteral(kind int8) string {
 	switch kind {
 	case vInt:
@@ -78,10 +83,14 @@ func (c concCase) script() string {
 	for m := 0; m < cs.nMembers(); m++ {
 		p, via := cs.member(m)
 		stmt := fmt.Sprintf("$o->%s = $val;", cs.props[p])
-		if via == "method" {
-			stmt = fmt.Sprintf("$o->%s($val);", cs.methods[p])
+		if via != "prop" {
+			stmt = fmt.Sprintf("$o->%s($val);", cs.memberName(m))
 		}
-		fmt.Fprintf(&sb, "function pw%d($o, $val, $want) { try { %s return \"A\"; } catch (\\Throwable $e) { if ($e->getMessage() == $want) { return \"R\"; } return \"X(\" . $e->getMessage() . \")\"; } }\n", m, stmt)
+		also := ""
+		if paramRejectPrefix != "" && via != "prop" {
+			also = fmt.Sprintf(" if (str_starts_with($e->getMessage(), %s)) { return \"P\"; }", phpString(paramRejectPrefix))
+		}
+		fmt.Fprintf(&sb, "function pw%d($o, $val, $want) { try { %s return \"A\"; } catch (\\Throwable $e) { if ($e->getMessage() == $want) { return \"R\"; }%s return \"X(\" . $e->getMessage() . \")\"; } }\n", m, stmt, also)
 	}
 	for w, a := range c.args {
 		if c.fnOf(w) != w {
@@ -220,10 +229,12 @@ func (d *driver) evalConc(c concCase, stdout string, src string) (ok bool) {
 				if obs == exp {
 					continue
 				}
-				// explained by the shared declaration having been bound through another coroutine's instance?
+				// 'P': rejected by a parameter declaration. Explained by the shared declaration
+				// having been bound through another coroutine's instance?
+				byParam := letters[pi] == 'P' || via == "param"
 				as := int8(-1)
 				for u, b := range c.args {
-					if u != w && b[p] != own && accepts(b[p], pr[1]) == obs {
+					if !byParam && u != w && b[p] != own && accepts(b[p], pr[1]) == obs {
 						if as < 0 || b[p] < as {
 							as = b[p]
 						}
@@ -232,7 +243,10 @@ func (d *driver) evalConc(c concCase, stdout string, src string) (ok bool) {
 				what := fmt.Sprintf("%s: in iteration %d coroutine %d's instance (parameter %s = %s) had a %s value %s by property %s through %s, expected %s",
 					c.String(), it, w, cs.params[p], typeNames[own], valNames[pr[1]], word(obs), cs.props[p], via, word(exp))
 				var key string
-				if as >= 0 {
+				if byParam && exp && !obs {
+					key = fmt.Sprintf("unbound-param/concurrent/class=%s/param=%s/own=%s/value=%s/via=%s", cs.name, cs.params[p], typeNames[own], valNames[pr[1]], via)
+					what += "; a value of the instance's own argument type is rejected by a member whose parameter is declared with the type parameter"
+				} else if as >= 0 {
 					key = fmt.Sprintf("shared-decl/first-lookup-wins-concurrent/class=%s/prop=%s/own=%s/as=%s/value=%s/via=%s",
 						cs.name, cs.props[p], typeNames[own], typeNames[as], valNames[pr[1]], via)
 					what += fmt.Sprintf("; it behaves as the %s instantiation of another coroutine", typeNames[as])
